@@ -176,9 +176,15 @@ def report(prop, args, targets, results, sres, seed, t0):
             out_lines.append(f"KNOWN-FINDING: property={prop} {kf['what']}")
             known_hits.append(oid)
             continue
+        rep = replay_mod.make_replay(prop, oid, vs, args.repo, obligations.get(oid, {}))
+        if all(v.get("imprecise") for v in vs) and not rep.get("reproduced"):
+            # every counter-model comes from a path that used an over-approximation and none replays natively:
+            # a failed proof, not a violation
+            undecided.append({"oid": oid, "reason": "counter-model on an over-approximated path did not reproduce natively: " + str(vs[0].get("imprecise"))})
+            obligations[oid]["status"] = "unknown"
+            continue
         n_new += 1
         path = os.path.join("replays", f"{prop}-{n_new}.json")
-        rep = replay_mod.make_replay(prop, oid, vs, args.repo, obligations.get(oid, {}))
         with open(os.path.join(HERE, path), "w") as fd:
             json.dump(rep, fd, indent=1, default=str)
         suffix = "" if rep.get("reproduced") else " no-failing-input-found"
